@@ -515,6 +515,8 @@ impl VersionSet {
                         ));
                     }
                 }
+
+                return Err(error);
             }
         }
 
